@@ -22,7 +22,7 @@ func init() {
 			{"C19/inferred-order-duplicate-free", func(c *Ctx) { ruleInferredOrderDedup(c, "C19/inferred-order-duplicate-free") }},
 		},
 		Explanation: "Decides the emission order of properties structurally: no byte is emitted from an iteration in Go's randomised map order (every such loop reachable from MarshalJSON only inserts under element keys or fills a slice that is sorted before use); in the properties emitter the listed names are emitted first, each only if it names a property and is then recorded, the unlisted remainder is collected under the negated record, sorted, and emitted on every successful path (no shortcut can skip it); the duplicate check of PropertyOrder rejects a second occurrence of any name, listed property or not, runs before any emission and MarshalJSON has a value receiver so nested schemas reach it; marshaling does not write to the schema, its PropertyOrder slice or its maps; inference always de-duplicates the order it produces. It does NOT observe byte equality of repeated marshals; encoding/json's own determinism is trusted.",
-		NotDecided: []string{"byte equality of repeated marshals as an observation", "encoding/json's own determinism"},
+		NotDecided:  []string{"byte equality of repeated marshals as an observation", "encoding/json's own determinism"},
 	})
 }
 
@@ -411,4 +411,3 @@ func skippable(g guardAtom, at ssa.Instruction) bool {
 	}
 	return !mustPass(other, map[*ssa.BasicBlock]bool{at.Block(): true}, targets)
 }
-
